@@ -1308,4 +1308,5 @@ def _range_inclusive_new(m, cfg, f, args, t):
     return Adt('std::ops::RangeInclusive', 0, [args[0], args[1], Int.const(0)])
 
 
-P['std::ops::RangeInclusive::<Idx>::new'] = _range_inclusive_new
+# not a general primitive (the reconstruction axioms of rules/valeq.py know the call form): used for constant ranges in promoted bodies only
+CONST_FNS = {'std::ops::RangeInclusive::<Idx>::new': _range_inclusive_new}
